@@ -269,15 +269,55 @@ fn same_bits(a: &Fv, b: &Fv) -> bool {
     crate::model::bit_eq(a, b)
 }
 
+/// One single mutation of a valid value.
+pub struct Mutation {
+    pub value: Fv,
+    pub path: Vec<Step>,
+    pub what: What,
+}
+
+pub enum What {
+    Swap(usize),
+    DropLast,
+    AppendCopy,
+    AppendU64,
+    RemoveKey(Fk),
+    ExtraKey(Fk),
+}
+
+impl Mutation {
+    /// shape class of the mutation (for signatures)
+    pub fn kind(&self) -> String {
+        match &self.what {
+            What::Swap(ai) => format!("swap<-a{ai}:{}", crate::model::variant(&aliens()[*ai])),
+            What::DropLast => "drop_last".into(),
+            What::AppendCopy => "append_copy".into(),
+            What::AppendU64 => "append_u64".into(),
+            What::RemoveKey(_) => "remove_key".into(),
+            What::ExtraKey(k) => format!("extra_key:{}", crate::model::variant(&Fv::from(k.clone()))),
+        }
+    }
+    pub fn desc(&self) -> String {
+        let path = &self.path;
+        match &self.what {
+            What::Swap(ai) => format!("swap@{path:?}<-alien{ai}"),
+            What::DropLast => format!("drop_last@{path:?}"),
+            What::AppendCopy => format!("append_copy@{path:?}"),
+            What::AppendU64 => format!("append_u64@{path:?}"),
+            What::RemoveKey(k) => format!("remove_key@{path:?}/{k:?}"),
+            What::ExtraKey(k) => format!("extra_key@{path:?}/{k:?}"),
+        }
+    }
+}
+
 /// Every single mutation of `v`: at every node (root included) a swap with
 /// every alien value, for arrays drop-last / append-copy / append-alien, for
 /// maps remove-each-key / add an extra key of each key kind.
-/// Returns (kind = shape class of the mutation, description, mutated value).
-pub fn mutations(v: &Fv) -> Vec<(String, String, Fv)> {
+pub fn mutations(v: &Fv, aliens: &[Fv]) -> Vec<Mutation> {
     let mut paths = Vec::new();
     node_paths(v, &mut Vec::new(), &mut paths);
-    let aliens = aliens();
     let mut out = Vec::new();
+    let mut push = |value: Fv, path: &Vec<Step>, what: What| out.push(Mutation { value, path: path.clone(), what });
     for path in &paths {
         let mut probe = v.clone();
         let node = get_mut(&mut probe, path).clone();
@@ -287,11 +327,7 @@ pub fn mutations(v: &Fv) -> Vec<(String, String, Fv)> {
             }
             let mut m = v.clone();
             *get_mut(&mut m, path) = alien.clone();
-            out.push((
-                format!("swap<-a{ai}:{}", crate::model::variant(alien)),
-                format!("swap@{path:?}<-alien{ai}"),
-                m,
-            ));
+            push(m, path, What::Swap(ai));
         }
         match &node {
             Fv::Array(a) => {
@@ -300,19 +336,19 @@ pub fn mutations(v: &Fv) -> Vec<(String, String, Fv)> {
                     if let Fv::Array(x) = get_mut(&mut m, path) {
                         x.pop();
                     }
-                    out.push(("drop_last".into(), format!("drop_last@{path:?}"), m));
+                    push(m, path, What::DropLast);
                     let mut m = v.clone();
                     if let Fv::Array(x) = get_mut(&mut m, path) {
                         let c = x[0].clone();
                         x.push(c);
                     }
-                    out.push(("append_copy".into(), format!("append_copy@{path:?}"), m));
+                    push(m, path, What::AppendCopy);
                 }
                 let mut m = v.clone();
                 if let Fv::Array(x) = get_mut(&mut m, path) {
                     x.push(Fv::U64(7));
                 }
-                out.push(("append_u64".into(), format!("append_u64@{path:?}"), m));
+                push(m, path, What::AppendU64);
             }
             Fv::Map(mm) => {
                 for k in mm.keys() {
@@ -320,7 +356,7 @@ pub fn mutations(v: &Fv) -> Vec<(String, String, Fv)> {
                     if let Fv::Map(x) = get_mut(&mut m, path) {
                         x.remove(k);
                     }
-                    out.push(("remove_key".into(), format!("remove_key@{path:?}/{k:?}"), m));
+                    push(m, path, What::RemoveKey(k.clone()));
                 }
                 let filler = mm.values().next().cloned().unwrap_or(Fv::U64(1));
                 for extra in [Fk::Text("zz".into()), Fk::I64(77), Fk::Bytes(vec![7, 7])] {
@@ -331,11 +367,7 @@ pub fn mutations(v: &Fv) -> Vec<(String, String, Fv)> {
                     if let Fv::Map(x) = get_mut(&mut m, path) {
                         x.insert(extra.clone(), filler.clone());
                     }
-                    out.push((
-                        format!("extra_key:{}", crate::model::variant(&Fv::from(extra.clone()))),
-                        format!("extra_key@{path:?}/{extra:?}"),
-                        m,
-                    ));
+                    push(m, path, What::ExtraKey(extra));
                 }
             }
             _ => {}
